@@ -68,6 +68,24 @@ Theorem C13_released_stays_released : forall pinned sched w,
 Proof. exact released_stays_released. Qed.
 Print Assumptions C13_released_stays_released.
 
+(* "cancelling stops the unit's process": the runner never exits while its command lives - it sends
+   SIGINT and, when the command is still there after the grace period (it may ignore SIGINT),
+   SIGKILL - for every schedule, restarts included ... *)
+Theorem C13_runner_gone_command_gone : forall pinned sched,
+  gone (w_run (run pinned sched world0)) = true -> w_child (run pinned sched world0) <> CRun.
+Proof. exact runner_gone_command_gone. Qed.
+Print Assumptions C13_runner_gone_command_gone.
+
+(* ... and Cancel (no daemon restart) records Canceled and answers only when the runner is gone:
+   from then on neither the runner nor the command is alive, whatever happens next.  (A cancel
+   issued before the runner's Pid is recorded is a no-op in the code and not covered.) *)
+Theorem C13_cancel_stops_process : forall sched i c, no_restart sched = true ->
+  nth_error (w_cancels (run false sched world0)) i = Some c -> k_pc c = CWrite ->
+  forall sched', let w' := run false sched' (run false sched world0) in
+  gone (w_run w') = true /\ w_child w' <> CRun.
+Proof. exact cancel_stops_process. Qed.
+Print Assumptions C13_cancel_stops_process.
+
 (* unit IDs: for every candidate stream and every interleaving of allocations (also those that
    fail after creating the directory) and releases, the index never holds an ID twice, and an ID
    handed out was neither in the index nor a directory on disk *)
